@@ -14,7 +14,7 @@ from rv.gen import lastext
 
 ID = "C06"
 LEVEL = "exploration"
-NULLS = ["-999.25", "-999.2500", "-9.9925E2", "-9999", "0", "999", "1e30", "2147483647", "-999.250", "9999.25", "-0.5"]
+NULLS = ["-999.25", "-999.2500", "-9.9925E2", "-9999", "0", "999", "1e30", "2147483647", "-999.250", "9999.25", "-0.5", "-9999999.25", "99999999999", "3.4028235e+38"]
 RULE = ("read side: NULL text from %d spellings/values (negative, positive, integer, zero, large, exponent) x cells per column "
         "from {equal by another spelling, +-1 ulp neighbours, NULL+-1e-6, -NULL, ordinary} incl. the index column x optional "
         "text column x engine {numpy, normal} x null_policy {strict, none} x {unwrapped, wrapped} x files without a NULL item; "
@@ -65,7 +65,7 @@ def grid(tier):
     for engine in ("numpy", "normal"):
         yield {"kind": "read", "null": "-999.25", "engine": engine, "policy": "strict", "wrap": False, "textcol": False,
                "rows": 4, "cols": 3, "seed": 1, "has_null_item": False}
-    for nv in (-999.25, -9999, 0, 999.25, 1e30, 2147483647, -9999.25):
+    for nv in (-999.25, -9999, 0, 999.25, 1e30, 2147483647, -9999.25, -9999999.25, 99999999999, -99999999999, 3.4028235e+38):
         for wrap in (False, True):
             for engine in ("numpy", "normal"):
                 k += 1
@@ -81,7 +81,7 @@ def random_case(rng, tier):
         return {"kind": "read", "null": rng.choice(NULLS), "engine": rng.choice(["numpy", "normal"]),
                 "policy": rng.choice(["strict", "strict", "none"]), "wrap": rng.random() < 0.3, "textcol": rng.random() < 0.25,
                 "rows": rng.randint(1, 12), "cols": rng.randint(1, 9), "seed": rng.randrange(10 ** 9), "has_null_item": rng.random() < 0.9}
-    return {"kind": "write", "nullvalue": rng.choice([-999.25, -9999, 0, 999.25, 1e30, 2147483647, -9999.25, -0.5]),
+    return {"kind": "write", "nullvalue": rng.choice([-999.25, -9999, 0, 999.25, 1e30, 2147483647, -9999.25, -0.5, -9999999.25, 99999999999, -99999999999, 3.4028235e+38, -2147483647]),
             "wrap": rng.random() < 0.4, "engine": rng.choice(["numpy", "normal"]), "seed": rng.randrange(10 ** 9),
             "rows": rng.randint(1, 10), "cols": rng.randint(2, 16), "fmt": rng.choice(["%.5f", "%.2f", "%.3e", "%.10g"]),
             "version": rng.choice([1.2, 2])}
